@@ -227,7 +227,7 @@ fn field_sweeps(acc: &mut Acc) {
             }
         }
     }
-    // fraction lengths 0..=20, separators, zulu variants, offset shapes
+    // fraction lengths 0..=600 and around 2^16 / 2^17, separators, zulu variants, offset shapes
     for n in 0..=20usize {
         let digits: String = "1234567890987654321098".chars().take(n).collect();
         for sep in ["T", "t", " ", "_", "", "  ", "\t"] {
